@@ -8,7 +8,7 @@ from ..spec import Tree
 
 PROP = 'C13'
 LEVEL = 'exploration'
-BUDGET = {'quick': 3200, 'thorough': 64000}
+BUDGET = {'quick': 12800, 'thorough': 192000}
 DS = [0, 0.25, 1, 2, 5]
 DTS = [0.25, 0.5, 0.75, 1, 1.25, 1.75, 2, 2.25, 4.75, 5, 5.25]
 RULE = ('cases = well-formed chart whose guards are after(d)/idle(d) probes (d in {0,1/4,1,2,5}), '
